@@ -84,6 +84,25 @@ def make_target(spec, D):
             st["m"] = val if st["m"] is None else min(st["m"], val)
             return float(val)
         return f
+    if fam == "facevalley":
+        # first coordinate pushed against its lower bound, the next two follow a curved valley: the run alternates
+        # successful polls (mesh expands) and failed polls (mesh refines) while the incumbent sits on a face of the box
+        c = float(spec.get("c", 1.6))
+
+        def f(x):
+            x = np.asarray(x, dtype=float).ravel()
+            return float((x[0] + c) ** 2 + 100.0 * (x[2] - x[1] ** 2) ** 2 + (1.0 - x[1]) ** 2)
+        return f
+    if fam == "faceslope":
+        # first coordinate pushed against its lower bound while the value keeps falling steeply ALONG that face:
+        # polls succeed (mesh expands) with the incumbent sitting on the face
+        c = float(spec.get("c", 1.6))
+        sl = float(spec.get("slope", 3.0))
+
+        def f(x):
+            x = np.asarray(x, dtype=float).ravel()
+            return float((x[0] + c) ** 2 - sl * x[1] + 0.5 * float(np.sum(x[2:] ** 2)))
+        return f
     if fam == "rosen":
         def f(x):
             x = np.asarray(x, dtype=float).ravel()
